@@ -250,6 +250,15 @@ def analyse(g):
         elif k in ('opt', 'star', 'plus', 'rep'):
             if k in ('star', 'plus') and n_item(x[1]): cyc_flag[0] = True
             walk(x[1])
+    def ebnf_empty(x):
+        # can x match the empty string without going through a rule? (then the enclosing alternative has a directly
+        # empty expansion after EBNF expansion)
+        k = x[0]
+        if k in ('maybe', 'opt', 'star'): return True
+        if k == 'plus': return ebnf_empty(x[1])
+        if k == 'rep': return x[2] == 0 or ebnf_empty(x[1])
+        if k == 'grp': return any(all(ebnf_empty(i) for i in alt) for alt in x[1])
+        return False
     edges = {}
     refs = {}
     def refs_of(x, acc):
@@ -266,7 +275,7 @@ def analyse(g):
             e |= units_seq(a['items'])
             for i in a['items']:
                 walk(i); refs_of(i, rf)
-            if all(i[0] in ('maybe', 'opt', 'star') or (i[0] == 'rep' and i[2] == 0) or (i[0] == 'grp' and any(len(s) == 0 for s in i[1])) for i in a['items']):
+            if all(ebnf_empty(i) for i in a['items']):
                 direct_empty = True
         edges[name] = e; refs[name] = rf
     def reach(graph, a):
